@@ -179,3 +179,18 @@ func errStr(err error) string {
 }
 
 func planOf(l *hist.Layout, p hist.Pos) []sim.PlanPkt { return sim.Plan(l, p) }
+
+// retainedChanged re-reads every transaction the handler was given against the
+// snapshot taken at delivery time; it returns a description of the first one
+// that changed, or "".
+func retainedChanged(ds []*run.Delivered) string {
+	for i, d := range ds {
+		if d.Ptr == nil {
+			continue
+		}
+		if why := verify(d.Ptr, d); why != "" {
+			return fmt.Sprintf("delivery %d (handed to the handler earlier) now reads differently: %s", i, why)
+		}
+	}
+	return ""
+}
